@@ -292,12 +292,12 @@ class Gen:
     def specs(self, name, n, **kw):
         return [self.spec(kind_at(name, j), **kw) for j in range(n)]
 
-    def cond_steps(self, name, malformed, big):
+    def cond_steps(self, name, malformed, big, allow_in=True, prefer_in=False):
         """one condition: [clause] (its `ret` is added by the caller); returns (step tokens, condition or None)"""
         k, v, m, o = T[name]
         kw = {'maxdepth': 4, 'maxalts': 8} if big else {}
         maxtail = 8 if big else 3
-        if self.r.chance(6, 10) or len(k) == 0:
+        if not allow_in or len(k) == 0 or self.r.chance(3 if prefer_in else 6, 10):
             n = self.arity(name, maxtail)
             if malformed and m != 2 and self.r.chance(1, 4):
                 n = max(0, n + self.r.choice([-1, 1, 2]))
@@ -388,7 +388,12 @@ class Gen:
                     steps.append(self.call_step(name, conds, direct))
                     ncalls += 1
                 self.count('call.between-registrations')
-            st, cond = self.cond_steps(name, malformed, big)
+            # the mockers offer no In before a When/Return: a configuration that starts with In exists only on a When made
+            # by CreateWhen directly (eval mode), where it is preferred so the case keeps its share
+            firstc = not steps
+            st, cond = self.cond_steps(name, malformed, big, allow_in=(not firstc or mode == 'eval'), prefer_in=firstc)
+            if firstc and st[0] == 'in':
+                self.count('first clause is In (eval mode)')
             steps.append(st)
             if steps and len(steps) > 1 and self.r.chance(1, 12):      # ... even between When(..) and its Return(..)
                 steps.append(self.call_step(name, conds, direct))
